@@ -6,6 +6,7 @@ import ElfioVerif.Props.C07
 import ElfioVerif.Model.Array
 import ElfioVerif.Model.Modinfo
 import ElfioVerif.Model.Versym
+import ElfioVerif.Lemmas.TablesTie
 import ElfioVerif.Spec.Tables
 namespace ElfioVerif
 open Gen
@@ -162,7 +163,7 @@ theorem splitRecord_spec (f v : Bytes) (hf : ∀ c ∈ f, c ≠ 61) (hl : f.leng
     simp only [mod_value_start, BitVec.toNat_add, ht]
     simp
     omega
-  simp only [Modinfo.splitRecord, hloc, ht, hs]
+  simp only [ModTie.splitRecord_eq, hloc, ht, hs]
   simp
 
 theorem ofNat_toNat64 (i : BitVec 64) : BitVec.ofNat 64 i.toNat = i := by simp
@@ -183,7 +184,7 @@ theorem skipNul_spec (z : Nat) : ∀ (pre tl ext : Bytes) (size i : BitVec 64) (
     rcases htl with rfl | ⟨c, tl', rfl, hc⟩
     · have hcond : mod_loop_cond i size = false := by
         simp only [mod_loop_cond, BitVec.ult, decide_eq_false_iff_not]; simp at hs; omega
-      simp only [Modinfo.skipNul, hcond, Bool.false_eq_true, if_false, pure, Except.pure, Nat.add_zero]
+      simp only [Modinfo.skipNul, ModTie.skip_cond_eq, ModTie.skipByteIsNul_eq, ModTie.skip_incr, decide_eq_true_eq, hcond, Bool.false_eq_true, if_false, pure, Except.pure, Nat.add_zero]
       rw [← hi, ofNat_toNat64]
     · have hcond : mod_loop_cond i size = true := by
         simp only [mod_loop_cond, BitVec.ult, decide_eq_true_eq]; simp at hs; omega
@@ -191,7 +192,7 @@ theorem skipNul_spec (z : Nat) : ∀ (pre tl ext : Bytes) (size i : BitVec 64) (
           = .ok [c] := by
         rw [rdRange_some_ok (by simp; omega), hi]
         simpa using slice_at pre c (tl' ++ ext)
-      simp only [Modinfo.skipNul, hcond, if_true, hr, bind, Except.bind, pure, Except.pure, Nat.add_zero]
+      simp only [Modinfo.skipNul, ModTie.skip_cond_eq, ModTie.skipByteIsNul_eq, ModTie.skip_incr, decide_eq_true_eq, hcond, if_true, hr, bind, Except.bind, pure, Except.pure, Nat.add_zero]
       have : ([c] = [(0 : UInt8)]) = False := by simp [hc]
       simp only [this, if_false]
       rw [← hi, ofNat_toNat64]
@@ -206,7 +207,7 @@ theorem skipNul_spec (z : Nat) : ∀ (pre tl ext : Bytes) (size i : BitVec 64) (
         = .ok [0] := by
       rw [rdRange_some_ok (by simp; omega), hi]
       simpa [List.replicate_succ] using slice_at pre 0 (List.replicate z 0 ++ (tl ++ ext))
-    simp only [Modinfo.skipNul, hcond, if_true, hr, bind, Except.bind, pure, Except.pure]
+    simp only [Modinfo.skipNul, ModTie.skip_cond_eq, ModTie.skipByteIsNul_eq, ModTie.skip_incr, decide_eq_true_eq, hcond, if_true, hr, bind, Except.bind, pure, Except.pure]
     have hi1 : (i + 1).toNat = (pre ++ [0]).length := by
       have h1 : (1 : BitVec 64).toNat = 1 := rfl
       simp only [BitVec.toNat_add, h1, List.length_append, List.length_cons, List.length_nil, Nat.reducePow]
@@ -427,7 +428,7 @@ theorem verneed_loop_spec {b : SecBuf} (hI : b.Inv) (e : Enc) (no : BitVec 32) (
     rw [hr] at hr'; cases hr'
     have hc : vr_loop_cond i no = false := by
       simp only [vr_loop_cond, BitVec.ult, decide_eq_false_iff_not]; omega
-    simp [Verneed.loop, hc, pure, Except.pure]
+    simp [Verneed.loop, VerTie.vr_i_incr_eq, hc, pure, Except.pure]
   | succ j ih =>
     intro i vn r fuel hr ho hi hf
     obtain ⟨f, rfl⟩ : ∃ f, fuel = f + 1 := ⟨fuel - 1, by omega⟩
@@ -454,7 +455,7 @@ theorem verneed_loop_spec {b : SecBuf} (hI : b.Inv) (e : Enc) (no : BitVec 32) (
       simp only [BitVec.toNat_add, h1, Nat.reducePow] at *
       omega
     have := ih (i + 1) (vn + r.next) r1 f hr1 ho hi1 (by omega)
-    simp only [Verneed.loop, hc, if_true, hstep, bind, Except.bind, this]
+    simp only [Verneed.loop, VerTie.vr_i_incr_eq, hc, if_true, hstep, bind, Except.bind, this]
 
 theorem decodeVerdef_fields {e : Enc} {bs : Bytes} {off : Nat} {r : Spec.Verdef}
     (h : Spec.decodeVerdef e bs off = some r) :
@@ -498,7 +499,7 @@ theorem verdef_loop_spec {b : SecBuf} (hI : b.Inv) (e : Enc) (no : BitVec 32) (o
     rw [hr] at hr'; cases hr'
     have hc : vd_loop_cond i no = false := by
       simp only [vd_loop_cond, BitVec.ult, decide_eq_false_iff_not]; omega
-    simp [Verdef.loop, hc, pure, Except.pure]
+    simp [Verdef.loop, VerTie.vd_i_incr_eq, hc, pure, Except.pure]
   | succ j ih =>
     intro i vd r fuel hr ho hi hf
     obtain ⟨f, rfl⟩ : ∃ f, fuel = f + 1 := ⟨fuel - 1, by omega⟩
@@ -525,7 +526,7 @@ theorem verdef_loop_spec {b : SecBuf} (hI : b.Inv) (e : Enc) (no : BitVec 32) (o
       simp only [BitVec.toNat_add, h1, Nat.reducePow] at *
       omega
     have := ih (i + 1) (vd + r.next) r1 f hr1 ho hi1 (by omega)
-    simp only [Verdef.loop, hc, if_true, hstep, bind, Except.bind, this]
+    simp only [Verdef.loop, VerTie.vd_i_incr_eq, hc, if_true, hstep, bind, Except.bind, this]
 
 end C14
 end ElfioVerif
